@@ -4,7 +4,7 @@ separated, not post-processed, alphabet agreement with the reader)."""
 import ast
 
 from ..astutil import (call_name, calls_in, walk_no_nested, params_of, kw,
-                       is_const, opt_read, single_defs)
+                       is_const, opt_read, single_defs, module_sentinels)
 from ..cfg import (cfg_of, loop_body_paths, expr_owner_node, facts_at,
                    enumerate_paths)
 from ..loader import Program, AnalysisError, unparse
@@ -179,8 +179,10 @@ def rule_emitters(chk, prog, reader_ws):
                       and c.func.attr in ('append', 'extend')]
             is_leaf = (f'{ex}.is_leaf()', True) in facts
             not_leaf = (f'{ex}.is_leaf()', False) in facts
-            closing = (f'{ex} is None', True) in facts or ('visited',
-                                                           True) in facts
+            sents = module_sentinels(m)
+            closing = (f'{ex} is None', True) in facts or (
+                'visited', True) in facts or any(
+                    (f'{ex} is {s_}', True) in facts for s_ in sents)
             abstract = []
             for (i, pc) in pieces:
                 if pc[0] == 'const':
@@ -242,6 +244,8 @@ def rule_emitters(chk, prog, reader_ws):
                 marker = any(
                     (isinstance(c.args[0], ast.Constant)
                      and c.args[0].value is None)
+                    or (isinstance(c.args[0], ast.Name)
+                        and c.args[0].id in sents)
                     or (isinstance(c.args[0], ast.Tuple) and is_const(
                         c.args[0].elts[-1], True))
                     for (i, n, c) in pushes if c.func.attr == 'append')
